@@ -13,7 +13,8 @@ RULE = ("inputs with ignore_oldest_root=True: msprime tree sequences (2-6 contem
         "numbering (the oldest root has the highest id) and with the non-sample nodes renumbered at random (the "
         "highest id then usually belongs to another node); random prior grids, both probability spaces, outside "
         "standardisation on/off. A case is non-trivial when the oldest root has a non-sample child (its messages "
-        "matter); distinct by content hash")
+        "matter); distinct by content hash."
+        "About half of the inputs carry 1-3 extra mutations that sit on NO edge (above the root of the local tree; valid tskit input); the references count only mutations on edges, computed from the tables.")
 ASSUME = ["the specification side is an independent dense re-implementation of the inside/outside equations "
           "(tools/props/_discrete.py reference_inside_outside) with the ignored node chosen by TIME; it agrees "
           "with the implementation to 1e-15 whenever the ignored node is the same",
